@@ -108,6 +108,27 @@ def main_slices(ctx, entry='mininec.main'):
     for i, st in enumerate(body):
         if isinstance(st, ast.Assign) and 'parse_args' in norm(st.value):
             start = i + 1
+    n_direct = sum(1 for st in body[start or 0:] if re.search(r'\bargs\.\w+', norm(st)) and 'split' in norm(st)) if start is not None else 0
+    if start is None or n_direct < 5:
+        # main delegates: the option handling lives in private helpers (and a try block around them); use the
+        # function with those helpers inlined and read the statements of the try / one-pass blocks in sequence
+        f = ctx.flat(entry)
+
+        def seq(stmts):
+            out_ = []
+            for st in stmts:
+                if isinstance(st, ast.Try):
+                    out_ += seq(st.body)
+                elif isinstance(st, ast.For) and isinstance(st.target, ast.Name) and st.target.id.startswith('__once'):
+                    out_ += seq(st.body)
+                else:
+                    out_.append(st)
+            return out_
+        body = seq(f.body())
+        start = None
+        for i, st in enumerate(body):
+            if isinstance(st, ast.Assign) and 'parse_args' in norm(st.value):
+                start = i + 1
     if start is None:
         raise AnalysisError('%s: the parse_args call was not found' % entry)
     out = []
